@@ -192,7 +192,13 @@ def r_zipguard_seq(ck: Checker) -> None:
     if ok:
         inner = decision_tree(zs[0].body)
         ok = any(lf.outcome == "return" and _tuple_ret(lf.value) == ("False", "{}") for lf in inner) and any(lf.outcome == "fall" for lf in inner)
-    (ck.holds if ok else ck.violation)("R-ZIPGUARD", f, f.node, what, **({} if ok else {"construct": "SequenceMatcher._match: pairwise loop not recognised"}))
+    if ok:
+        ck.holds("R-ZIPGUARD", f, f.node, what)
+    elif len(zs) == 1 and sorted(norm(x) for x in zs[0].iter.args) == ["self.matchers", "value"] and [norm(x) for x in zs[0].iter.args] != ["self.matchers", "value"] \
+            and isinstance(zs[0].target, ast.Tuple) and not any("match(" in norm(st_) and norm(zs[0].target.elts[0]) + ".match(" in norm(st_) for st_ in zs[0].body):
+        raise Unsupported("SequenceMatcher._match: pairwise loop with swapped operands", zs[0])
+    else:
+        raise Unsupported("SequenceMatcher._match: pairwise loop not recognised", f.node)
 
 
 def r_types_all(ck: Checker) -> None:
@@ -584,7 +590,12 @@ def r_multi_order(ck: Checker) -> None:
     what = "rules are registered in the order given (dict insertion order = definition order)"
     ok = len(loops) == 1 and norm(loops[0].iter) == "pattern_defs" and any(
         isinstance(st, ast.Assign) and norm(st.targets[0]) == "self._name_to_matcher[pattern_name]" for st in walk_body(loops[0].body))
-    (ck.holds if ok else ck.violation)("R-MULTI-ORDER", g, g.node, what, **({} if ok else {"construct": "MultiPatternMatcher.__init__: registration order not recognised"}))
+    if ok:
+        ck.holds("R-MULTI-ORDER", g, g.node, what)
+    elif any(isinstance(c_, ast.Call) and dotted(c_.func) in ("sorted", "set", "frozenset", "reversed") and c_.args and "pattern_defs" in norm(c_.args[0]) for c_ in ast.walk(g.node)):
+        ck.violation("R-MULTI-ORDER", g, g.node, what, construct="MultiPatternMatcher.__init__: the definitions are registered in another order than given (sorted / set / reversed over pattern_defs)")
+    else:
+        raise Unsupported("MultiPatternMatcher.__init__: registration order not recognised", g.node)
 
 
 def run(ck: Checker) -> None:
